@@ -359,10 +359,16 @@ def _run_git(case, obs):
             url = None
         else:
             origin = os.path.join(td, "origin.git")
-            _build_repo(origin, branches, tags, bare=True)
+            _build_repo(origin, list(branches) + list(case.get("deleted_upstream", [])), tags, bare=True)
             url = "file://" + origin
         r = repo.RallyRepository(url, root, "default", "tracks", offline=False)
         repo_dir = r.repo_dir
+        for b in case.get("deleted_upstream", []):
+            _git("-C", origin, "branch", "-q", "-D", b)
+            obs.cls("git:branch-deleted-upstream-after-the-clone")
+        if case.get("deleted_upstream"):
+            # the next run of Rally: a new RallyRepository on the existing working copy (which fetches)
+            r = repo.RallyRepository(url, root, "default", "tracks", offline=False)
         if mode == "git-remote":
             for b in prior_local:
                 _git("-C", repo_dir, "branch", "-q", b, f"origin/{b}")
@@ -579,6 +585,13 @@ def _git_case(draw, known):
         # the checked update follows an earlier one for a nearby version
         near = [f"{vp[0]}.{vp[1] + 1}.0", f"{vp[0]}.{max(vp[1] - 1, 0)}.{vp[2]}", f"{vp[0] + 1}.0.0", f"{max(vp[0] - 1, 0)}.17.3", f"1.7.3", f"{vp[0]}.{vp[0]}.1"]
         case["first_version"] = draw(st.sampled_from(near))
+    if mode == "git-remote" and vp and "first_version" not in case and draw(st.booleans()):
+        # branches that existed upstream when Rally cloned the repository and have been deleted there since (retired, turned into tags):
+        # they are no branches of the repository any more, although they would match the version
+        pool = [b for b in (_name(vp[0], vp[1]), _name(vp[0]), _name(vp[0], max(vp[1] - 1, 0)), _name(vp[0], vp[1], vp[2]))
+                if b not in case["branches"] and b not in case["local_only"] and not any(x.rpartition("/")[2] == b for x in case["branches"])]
+        if pool:
+            case["deleted_upstream"] = draw(st.lists(st.sampled_from(pool), min_size=1, max_size=2, unique=True))
     return case
 
 
